@@ -614,6 +614,20 @@ func (env *specEnv) evalCall(x *SCall) TV {
 			env.fail("rangepos() without a range loop")
 		}
 		return TV{T: app("select", env.heap("IT"), env.fr.lastRange), Sort: "Int"}
+	case "nlcount": // nlcount(s, a, b): number of newlines in s[a:b]
+		argn(3)
+		u.declareCounting()
+		a := env.eval(x.Args[0])
+		lo := env.eval(x.Args[1])
+		hi := env.eval(x.Args[2])
+		return TV{T: fmt.Sprintf("(- (nlcum (sbase %s) (+ (slo %s) %s)) (nlcum (sbase %s) (+ (slo %s) %s)))", a.T, a.T, hi.T, a.T, a.T, lo.T), Sort: "Int"}
+	case "linestart": // linestart(s, k): index in s just after the last newline before k (0 if none)
+		argn(2)
+		u.declareCounting()
+		a := env.eval(x.Args[0])
+		k := env.eval(x.Args[1])
+		raw := fmt.Sprintf("(- (lstartraw (sbase %s) (+ (slo %s) %s)) (slo %s))", a.T, a.T, k.T, a.T)
+		return TV{T: fmt.Sprintf("(ite (>= %s 0) %s 0)", raw, raw), Sort: "Int"}
 	case "b2i":
 		argn(1)
 		a := env.eval(x.Args[0])
